@@ -35,8 +35,11 @@ pub fn check_graph(item: u64, g: &GraphSpec, desc: &str, sig: &[Vec<isize>], acc
     };
     acc.evals += 1;
     let full = go.full() as usize;
-    let dyadic = g.weights.iter().all(|w| (w * 64.0).fract() == 0.0);
-    acc.count(if dyadic { "dyadic_weight_graphs" } else { "non_dyadic_weight_graphs" });
+    // "dyadic" here means: the table's own generalised dods equal the exact rational ones, so
+    // the recursion is compared at the tight tolerance (true for all exactly representable weights)
+    let full_m = go.full() as usize;
+    let dyadic = tv.dod.len() == full_m + 1 && (0..=full_m).all(|m| tv.dod[m].is_finite() && q(tv.dod[m]) == om[m]);
+    acc.count(if dyadic { "graphs_with_exact_table_dods" } else { "graphs_with_rounded_table_dods" });
     // oracle self-check: recursion vs sum over all E! orderings
     if ne <= 6 {
         let jp = go.j_by_permutations(&om);
@@ -49,6 +52,7 @@ pub fn check_graph(item: u64, g: &GraphSpec, desc: &str, sig: &[Vec<isize>], acc
     }
     let wsum: f64 = g.weights.iter().sum();
     let om_min = om[1..full.max(1)].iter().map(|x| qf(&x.abs())).fold(f64::INFINITY, f64::min);
+    acc.set("smallest_sub_dod_decades", format!("1e{:03}", om_min.log10().floor() as i64));
     let rel_tol = 64.0 * ne as f64 * EPS * if dyadic { 1.0 } else { 1.0 + ne as f64 * wsum / om_min.max(1e-300) };
     let mut bad: Vec<String> = vec![];
     if tv.j.len() != full + 1 {
